@@ -210,7 +210,7 @@ def rand_history(rng, cfg, nthreads, oplen):
                 elif x < 0.85 and open_txn:
                     ops.append({"op": "endcq", "txn": open_txn.pop(rng.randrange(len(open_txn))), "how": rng.choice(["resp", "resp", "err"])})
                 else:
-                    ops.append({"op": "metrics"})
+                    ops.append({"op": rng.choice(["metrics", "scrape"])})   # flow-invocation counters / used-quota gauges
             threads.append(ops)
         h.append({"ev": "conc", "threads": threads})
     return h
@@ -433,6 +433,98 @@ def spoe_stage(ctx):
 # ---------------------------------------------------------------------------------------------------------------------
 
 
+def vacuum_stage(ctx, replay_obj=None, path=None):
+    """(2d) toolkit-core's MapVacuum (anchored state "vacuum entry list"): registrations from several goroutines while the
+    background pass runs.  Model: VacuumI (one action per critical section; writing the snapshot back is refuted).  Real code:
+    harness/cmd/c18v uses the real MapVacuum the way concurrency.Limiter does and records registrations, clock moves, passes
+    and probes of the map; VacuumTrace / VacuumP judge them (nothing removed early, no registration ever forgotten)."""
+    T = ctx.thorough
+    binary = ctx.build_harness("c18v")
+    sd = ctx.spec_dir(SPEC)
+
+    def record(script, tag):
+        d = ctx.sub("run-" + tag)
+        sp = os.path.join(d, "scripts.json")
+        json.dump([script], open(sp, "w"))
+        ctx.run_harness(binary, ["run", sp, d])
+        return read_ndjson(os.path.join(d, "trace-000.ndjson"))
+
+    def rejected_of(trace, tag):
+        acc, rej, _ = validate_history_trace(ctx, SPEC, "VacuumTrace", trace, tag=tag, max_rounds=3)
+        return acc, rej
+
+    def witness(rej):
+        e = rej["hist"][rej["at"]]
+        known = set()
+        for x in rej["hist"][: rej["at"]]:
+            if x["ev"] == "regs":
+                known |= set(x["keys"])
+        return {"class": "vacuum-probe-not-allowed-by-spec", "level": "map-vacuum", "event": {"ev": e["ev"], "keys_in_map": len(e.get("keys", [])),
+                "first_keys": e.get("keys", [])[:5]}, "registered_before": len(known), "concurrent": True}
+
+    if replay_obj is not None:
+        for attempt in range(10):
+            t = record(replay_obj["script"], "replay")
+            _, rej = rejected_of(t, "replay")
+            if rej:
+                print(json.dumps(witness(rej[0])))
+                print("VIOLATION property=C18 replay=%s" % path)
+                return 1
+        print("re-execution (10 runs of the script) accepted by the specification")
+        return 0
+
+    ctx.tlc_exhaustive(sd, "VacuumI", "MC_Vacuum.cfg", timeout=300, label="MapVacuum as written: no registration forgotten, nothing removed early")
+    r = ctx.tlc(sd, "VacuumI", "MC_Vacuum_snapback.cfg", timeout=300, label="non-vacuity: a pass that writes its snapshot of the entry list back must be refuted")
+    if r.violated is None:
+        raise Broken("vacuum model cannot tell a forgotten registration from the property: %r" % r)
+
+    nhist = 6 if not T else 40
+    overlapped = 0
+    for i in range(nhist):
+        ttl, tick = ctx.rng.choice([(2000, 500), (2000, 500), (1000, 500), (30000, 10000), (600, 200)])
+        h = [{"ev": "reset"}]
+        for s in range(ctx.rng.randint(2, 4)):
+            h.append({"ev": "regstorm", "g": ctx.rng.randint(2, 8), "per": 200, "advs": ctx.rng.randint(3, 12)})
+            if ctx.rng.random() < 0.6:
+                h.append({"ev": "probe"})
+            if ctx.rng.random() < 0.3:
+                h.append({"ev": "adv", "d": tick * ctx.rng.randint(1, 3)})
+                h.append({"ev": "probe"})
+        # drain: the clock passes the last deadline, the pass after the next move has read it
+        h += [{"ev": "adv", "d": ttl + tick}, {"ev": "probe"}, {"ev": "adv", "d": tick}, {"ev": "probe"}, {"ev": "adv", "d": tick}, {"ev": "probe"}]
+        script = {"config": {"Ttl": ttl, "Tick": tick}, "histories": [h]}
+        t = record(script, "vac%d" % i)
+        if i == 0:
+            ctx.sample({"kind": "recorded-vacuum-history", "events": [dict(e, keys=e["keys"][:4]) if "keys" in e else e for e in t[:14]]})
+        seen_regs = False
+        for e in t:                       # a pass that removed something before the storm's registrations were over
+            if e["ev"] == "regs":
+                seen_regs = True
+            if e["ev"] == "pass" and e["removed"] > 0:
+                overlapped += 1
+        acc, rej = rejected_of(t, "vac%d" % i)
+        ctx.cov["traces_validated_against_impl"] += acc
+        ctx.cov["evaluations"] += sum(len(e["keys"]) for e in t if e["ev"] == "regs")
+        ctx.cov["distinct_nontrivial"] += 1
+        if rej:
+            reproduced = None
+            for attempt in range(8):
+                t2 = record(script, "vac%d-repro" % i)
+                _, r2 = rejected_of(t2, "vac%d-repro" % i)
+                if r2:
+                    reproduced = r2[0]
+                    break
+            w = witness(reproduced or rej[0])
+            if not reproduced:
+                w["reproduced"] = False     # schedule-dependent; the recorded history itself is the evidence
+            rj = reproduced or rej[0]
+            ctx.violation(w, {"stage": "vacuum", "script": script, "trace": [rj["config"]] + rj["hist"], "rejected_at": rj["at"],
+                              "schedule_dependent": True})
+    if overlapped == 0:
+        raise Broken("vacuum stage: no pass removed anything in %d histories (registrations never overlapped a working pass)" % nhist)
+    ctx.notes.append("vacuum stage: %d histories, %d passes that removed entries" % (nhist, overlapped))
+
+
 # ---------------------------------------------------------------------------------------------------------------------
 # BEGIN stage "reload" (harness/cmd/c18h reload; specs ReloadLinP / ReloadLinTrace): transactions through the real
 # routing.Handler WHILE the flows are reloaded through the real admin handlers (/load_flows, /apply_flows, /configuration):
@@ -569,6 +661,7 @@ def run(ctx):
     ctx.sample({"kind": "recorded-concurrent-history", "events": split_histories(traces[0])[1][0][:16]})
     judge(ctx, binary, scripts, traces, "rand")
     spoe_stage(ctx)        # (2b) the same through the real SPOE message handler (harness/cmd/c18h)
+    vacuum_stage(ctx)      # (2d) MapVacuum under concurrent registrations (harness/cmd/c18v, VacuumI / VacuumP / VacuumTrace)
     reload_stage(ctx)      # (2c) transactions while the flows are being reloaded (harness/cmd/c18h reload, ReloadLinTrace)
 
     # (3) directed schedules from the interleaving model, forced on the real Limiter through the yield point
@@ -600,7 +693,27 @@ def run(ctx):
             scheds.append(wk["steps"])
     # counterexamples come from the instance with M = 3 = number of requests (every refusal is then unexplainable),
     # the walks from the instance with M = 2
-    for dcfg, group, tag in (({"M": 3, "C": 1, "W": 10}, ce, "sched-ce"), ({"M": 2, "C": 1, "W": 10}, scheds, "sched")):
+    # metric scrapes (reads of the used-quota gauges) as steps of the schedules: a read between a transaction's Inc and its
+    # Allowed - before / after the end of its window, once or several times, alone or followed by another transaction's Inc -
+    # must not change what the transaction is told.  Hand-directed ones run with M = 3 >= number of requests (no refusal is
+    # explainable), and every generated walk is run once more with scrapes inserted at random places.
+    scrapes = [
+        [["inc", 1], ["tick"], ["scrape"], ["scrape"], ["allowed", 1]],
+        [["inc", 1], ["tick"], ["scrape"], ["inc", 2], ["allowed", 1], ["allowed", 2]],
+        [["inc", 1], ["scrape"], ["tick"], ["scrape"], ["allowed", 1]],
+        [["inc", 1], ["inc", 2], ["tick"], ["scrape"], ["scrape"], ["allowed", 2], ["allowed", 1]],
+        [["scrape"], ["inc", 1], ["tick"], ["scrape"], ["scrape"], ["scrape"], ["allowed", 1]],
+        [["inc", 1], ["tick"], ["scrape"], ["inc", 2], ["scrape"], ["inc", 3], ["allowed", 1], ["allowed", 3], ["allowed", 2]],
+        [["inc", 1], ["scrape"], ["scrape"], ["allowed", 1], ["inc", 2], ["tick"], ["scrape"], ["allowed", 2]],
+    ]
+    with_scrapes = []
+    for st in scheds:
+        st2 = list(st)
+        for _ in range(ctx.rng.randint(1, 3)):
+            st2.insert(ctx.rng.randint(0, len(st2)), ["scrape"])
+        with_scrapes.append(st2)
+    for dcfg, group, tag in (({"M": 3, "C": 1, "W": 10}, ce, "sched-ce"), ({"M": 2, "C": 1, "W": 10}, scheds, "sched"),
+                             ({"M": 3, "C": 1, "W": 10}, scrapes, "sched-scrape"), ({"M": 2, "C": 1, "W": 10}, with_scrapes, "sched-wscrape")):
         directed(ctx, binary, dcfg, group, tag)
 
     if T:
@@ -638,6 +751,13 @@ def directed(ctx, binary, dcfg, scheds, tag):
 
 def replay(ctx, path):
     obj = json.load(open(path))
+    if obj["replay"].get("stage") == "reload":
+        rc = reload_stage(ctx, obj["replay"])
+        if rc:
+            print("VIOLATION property=C18 replay=%s" % path)
+        return rc
+    if obj["replay"].get("stage") == "vacuum":
+        return vacuum_stage(ctx, obj["replay"], path)
     binary = ctx.build_harness(obj["replay"].get("harness", "c18"))       # "c18h": recorded through the SPOE handler
     rp = obj["replay"]
     if rp.get("crash"):
